@@ -328,6 +328,13 @@ pub fn adapt_case(r: &mut Rng, server_mode: bool, plan: u8, steps: usize) -> Str
                 let target = Id::random();
                 let (tx, _rx) = flume::unbounded();
                 s.node.actor.verif_get(crate::c20::request_of(0, target), ResponseSender::ClosestNodes(tx));
+                // sometimes two lookups run side by side and end in the same loop iteration (both wait for the
+                // same silent peer to time out)
+                let double = r.chance(1, 3);
+                let (tx2, _rx2) = flume::unbounded();
+                if double {
+                    s.node.actor.verif_get(crate::c20::request_of(0, Id::random()), ResponseSender::ClosestNodes(tx2));
+                }
                 let mut votes: Vec<SocketAddrV4> = Vec::new();
                 for round in 0..200 {
                     let mut vs: Vec<SocketAddrV4> = Vec::new();
@@ -338,6 +345,9 @@ pub fn adapt_case(r: &mut Rng, server_mode: bool, plan: u8, steps: usize) -> Str
                         };
                         if !matches!(req.request_type, RequestTypeSpecific::FindNode(_)) {
                             return s.honest(inc);
+                        }
+                        if double && inc.peer == n - 1 {
+                            return Reply::Silent;
                         }
                         let v = if inc.peer < minority { loser } else { winner };
                         vs.push(v);
